@@ -336,6 +336,10 @@ func (in *Interp) vIntrinsic(base string, fn *ssa.Function, args []Value) (Value
 		v := Var(nm, 0)
 		in.addSym(v)
 		return v, true
+	case "vIte":
+		return Ite(args[0].(*Term), args[1].(*Term), args[2].(*Term)), true
+	case "vB2I":
+		return Ite(args[0].(*Term), Const(64, 1), Const(64, 0)), true
 	case "vConcrete":
 		return Const(64, uint64(in.concretize(args[0].(*Term)))), true
 	case "vAssume":
